@@ -272,6 +272,7 @@ def run(chk):
     dist['tables with more than 65536 format 12 groups'] = len(bcases)
     # fonts
     byfont = {}
+    pmodel = []
     for c, l in zip(fcases, fl):
         f = c.split()
         if l is None or ' G' not in l:
@@ -294,6 +295,11 @@ def run(chk):
                 chk.violation('cmap-pseudo:%s:%s' % (os.path.basename(fn), ','.join('%x' % b for b in bad)), '%s: gr_face_is_char_supported on code points the cmap leaves unmapped: the pseudo-glyph map lists %s, the face supports %s%s'
                               % (os.path.basename(fn), ['%x' % u for u in want][:12], ['%x' % u for u in gotp][:12], (' and reports %s' % odd[:3]) if odd else ''), dict(font=os.path.basename(fn), pseudo_map={'%x' % u: g for u, g in pm.items()}, base_font=base))
             classes.add(('pseudo', os.path.basename(fn), len(want)))
+            # the same points through Model/PseudoModel.v (extracted): every listed code point and its neighbours, and whatever the face
+            # reported as supported-though-unmapped, each with the cmap's answer
+            pts = sorted(set(p for u in pm for p in (u - 1, u, u + 1) if 0 <= p < 0x110000) | set(gotp))[:400]
+            pcase = 'p%d pseudo %s %s' % (len(pmodel), ','.join('%x:%d' % (u, g) for u, g in sorted(pm.items())) or '-', ' '.join('%x:%d' % (p_, cm.get(p_, 0)) for p_ in pts))
+            pmodel.append((pcase, fn, set(gotp), cm, pts))
         if '0' in r:
             exp = G.parse_font_cmap(os.path.join(vlib.REPO, 'tests/fonts', fn if not fn.startswith('/') else pseudo_of[fn][0]))
             got = {}
@@ -306,6 +312,18 @@ def run(chk):
                 chk.violation('cmap-font-spec:%s:%x' % (fn, bad[0]), '%s: face maps %s differently from the cmap table (independent parser): %s'
                               % (fn, ['%x' % b for b in bad], [(hex(b), got.get(b), exp.get(b)) for b in bad]), dict(font=fn))
             classes.add(('font', fn))
+    if pmodel:
+        pml, _, _ = vlib.run_pair(mexe, None, [x[0] for x in pmodel])
+        for (pcase, fn, gotp_, cm_, pts), m in zip(pmodel, pml):
+            if m is None or ' PS' not in m:
+                chk.tie_break('harness', 'no model line for the pseudo-glyph points', pcase[:200]); continue
+            for q in m.split(' PS', 1)[1].split():
+                u, g, sup = q.split(':'); u = int(u, 16)
+                isup = 1 if (u in gotp_ or cm_.get(u, 0)) else 0
+                if int(sup) != isup:
+                    ndis += 1
+                    chk.tie_break('correspondence:pseudo', 'U+%04X on %s: Model/PseudoModel.v says supported=%s (initial glyph %s), the face says %d' % (u, os.path.basename(fn), sup, g, isup), pcase[:600]); break
+        dist['pseudo-glyph points through the model'] = sum(len(x[4]) for x in pmodel)
     chk.cov.update(evaluations=len(cases) + len(fcases), distinct_nontrivial=len(classes), disagreements_checked=ndis, distribution=dist,
                    fonts_swept=sorted(byfont), exhaustive_per_font=True,
                    rule='synthesised cmaps: format-4 (1-300 segments, adjacent / gapped, idRangeOffset arrays, wrapping deltas, real final segment) with or without '
